@@ -155,6 +155,11 @@ section
 variable {α : Type} [Add α] [Sub α] [Mul α] [Div α] [Neg α] [LT α] [LE α] [NatCast α]
   [DecidableLT α] [DecidableLE α] [Transc α] [Rint α]
 
+/-- a state with nothing in it (driver use: the fields a method reads are filled in by the caller) -/
+def blank : GState α :=
+  { xmin := ((100:Nat):α), xmax := ((0:Nat):α), rmin := ((0:Nat):α), rmax := ((0:Nat):α), rdelta := ((1:Nat):α), dr := [],
+    density := ((1:Nat):α), bcoh_sqrd := ((1:Nat):α), btot_sqrd := ((1:Nat):α) }
+
 /-- `numpy.arange(start, stop, step)`: length ceil((stop − start)/step), values start + i·((start + step) − start) -/
 def arangeLen (start stop step : α) : Nat :=
   let t := (stop - start) / step
